@@ -169,6 +169,13 @@ func (x *X) assume(guard, fact *Term, why string) {
 		// a side fact about a term that lives under a quantifier: cannot be stated globally
 		return
 	}
+	if fact.Op == "and" {
+		// conjuncts separately: the quantifier-free relaxation then drops only the quantified ones
+		for _, c := range fact.Args {
+			x.assums = append(x.assums, Assumption{Guard: guard, Fact: c, Why: why})
+		}
+		return
+	}
 	x.assums = append(x.assums, Assumption{Guard: guard, Fact: fact, Why: why})
 }
 
